@@ -151,9 +151,9 @@ def fuzz_parse(prop, seed):
             f.write(h[:2] + bytes([i & 1]) + h[2:26])
     env = dict(ENV)
     env["CARGO_TARGET_DIR"] = os.path.join(TARGET, "fuzz_parse")
-    runs = 400000
+    runs = 150000
     offset = {"C01": 1, "C03": 2, "C09": 3}[prop]
-    cmd = ["cargo", "+nightly", "fuzz", "run", "--fuzz-dir", fdir, "parse", corp, "--", "-runs=%d" % runs, "-seed=%d" % (seed * 4 + offset), "-max_len=80", "-len_control=0", "-rss_limit_mb=8192", "-artifact_prefix=" + art, "-print_final_stats=1"]
+    cmd = ["cargo", "+nightly", "fuzz", "run", "--fuzz-dir", fdir, "parse", corp, "--", "-runs=%d" % runs, "-seed=%d" % (seed * 4 + offset), "-max_len=80", "-len_control=0", "-rss_limit_mb=8192", "-artifact_prefix=" + art, "-print_final_stats=1", "-detect_leaks=0"]
     t = time.time()
     code, outp = run(cmd, cwd=ROOT, env=env, capture=True, timeout=5 * 3600)
     logp = os.path.join(ROOT, "work", "fuzz_parse_%s.log" % prop)
